@@ -137,8 +137,10 @@ func (self Loader) LoadMany(items []LoadOneItem) (out []Function) {
 // WARN: this API is experimental, use it carefully
 func Load(text []byte, funcs []Func, modulename string, filenames []string) (out []Function) {
 	ids := make([]string, len(funcs))
+	offs := make([]uint32, len(funcs))
 	for i, f := range funcs {
 		ids[i] = f.Name
+		offs[i] = f.EntryOff
 	}
 	// generate module data and allocate memory address
 	mod := makeModuledata(modulename, filenames, &funcs, text)
@@ -152,7 +154,8 @@ func Load(text []byte, funcs []Func, modulename string, filenames []string) (out
 	out = make([]Function, len(funcs))
 	for i, s := range ids {
 		for _, f := range funcs {
-			if f.Name == s {
+			// names are not unique (distinct types may print alike): match the entry too
+			if f.Name == s && f.EntryOff == offs[i] {
 				m := uintptr(mod.text + uintptr(f.EntryOff))
 				out[i] = Function(&m)
 			}
